@@ -488,7 +488,7 @@ class Query(
             compile_options["_for_refresh_state"] = True
         if only_load_props:
             compile_options["_only_load_props"] = frozenset(only_load_props)
-        if identity_token:
+        if identity_token is not None:
             load_options["_identity_token"] = identity_token
 
         if load_options:
